@@ -52,12 +52,15 @@ impl<I: WriteSyscall> WriteSyscall for WriteSyscallFacade<I> {
             }
         }
         let r = self.inner.write(fn_ptr, fd, buf, len);
+        // see `impl_facade`: the bookkeeping below must not change the errno the caller sees
+        let errno = crate::syscall::get_errno();
         if let Some(co) = crate::scheduler::SchedulableCoroutine::current() {
             if co.running().is_err() {
                 crate::error!("{} change to running state failed !", co.name());
             }
         }
-        crate::info!("exit syscall {} {:?} {}", syscall, r, std::io::Error::last_os_error());
+        crate::info!("exit syscall {} {:?} {}", syscall, r, std::io::Error::from_raw_os_error(errno));
+        crate::syscall::set_errno(errno);
         r
     }
 }
